@@ -21,8 +21,8 @@ pub fn property() -> Property {
             "bytes::BytesMut / tokio_util codec traits",
         ],
         families: vec![
-            (Box::new(FrameFam), 150_000, 1_200_000),
-            (Box::new(StreamFam), 150_000, 1_200_000),
+            (Box::new(FrameFam), 600_000, 8_000_000),
+            (Box::new(StreamFam), 600_000, 8_000_000),
         ],
     }
 }
